@@ -153,6 +153,41 @@ func ruleWaitBeforeReturn(c *Ctx, rule string) {
 		if strings.Contains(a.label, "lit:ReturnStmt") {
 			finalAppend = a.call
 		}
+		// the final return built by a helper: every non-nil value it returns is a ReturnStmt
+		if elems, ok := variadicElems(a.call.Common().Args[1]); ok && len(elems) == 1 {
+			v := resolve(elems[0])
+			if mi, isMI := v.(*ssa.MakeInterface); isMI {
+				v = resolve(mi.X)
+			}
+			if hc, isCall := v.(*ssa.Call); isCall {
+				if h := hc.Common().StaticCallee(); h != nil && fnPkgPath(h) == genPkg && len(h.Blocks) > 0 {
+					all, some := true, false
+					for _, r := range returnsOf(h) {
+						if len(r.Results) != 1 {
+							all = false
+							continue
+						}
+						if isNilConst(r.Results[0]) {
+							continue
+						}
+						al, isAl := resolve(r.Results[0]).(*ssa.Alloc)
+						if !isAl {
+							all = false
+							continue
+						}
+						if nm, _ := isAstNodeType(al.Type()); nm != "ReturnStmt" {
+							all = false
+						} else {
+							some = true
+						}
+					}
+					if all && some {
+						finalAppend = a.call
+						c.seen(fnName(h))
+					}
+				}
+			}
+		}
 	}
 	if initCall == nil || waitCall == nil || waitAppend == nil || finalAppend == nil {
 		c.undecided(rule, "generateStmts:wait-structure", "cannot identify async initialisation, wait statements and the final return in generateStmts")
@@ -794,6 +829,9 @@ func ruleContextThreaded(c *Ctx, rule string) {
 					if t == `""` {
 						continue
 					}
+					if strings.Contains(t, "field:internal/kessoku.InjectorArgument.Param(nil)") {
+						continue // the finder's "none" result: excluded by the nil test the guard check below insists on
+					}
 					if !strings.Contains(t, "InjectorParam).Name(field:internal/kessoku.InjectorArgument.Param(index(field:internal/kessoku.Injector.Args(") {
 						ok = false
 					}
@@ -808,6 +846,10 @@ func ruleContextThreaded(c *Ctx, rule string) {
 								if strings.Contains(strings.Join(s2.eval(call.Common().Args[0]), "|"), "InjectorArgument.Type(index(field:internal/kessoku.Injector.Args(") {
 									guarded = true
 								}
+							}
+							// the argument found by a finder helper: `if a := contextArg(injector); a != nil { a.Param.Name(..) }`
+							if fm, _, isFM := firstMatchTest(iff.Cond); isFM && fm.pred == "isContextType" && fm.listKey == "internal/kessoku.Injector.Args" && fm.fieldKey == "internal/kessoku.InjectorArgument.Type" {
+								guarded = true
 							}
 						}
 						if !guarded {
@@ -834,6 +876,14 @@ func ruleContextThreaded(c *Ctx, rule string) {
 						s := newSym(L, map[string]bool{})
 						if strings.Contains(strings.Join(s.eval(cs2.arg(0)), "|"), "InjectorArgument.Type(index(field:internal/kessoku.Injector.Args(") {
 							pred = true
+						}
+					}
+				}
+				// the same scan behind a finder helper: contextArg(injector) != nil
+				if !ok {
+					if fm, _, isFM := firstMatchTest(cs.arg(1)); isFM && fm.pred == "isContextType" && fm.listKey == "internal/kessoku.Injector.Args" && fm.fieldKey == "internal/kessoku.InjectorArgument.Type" {
+						if bo, isB := resolve(cs.arg(1)).(*ssa.BinOp); isB && bo.Op == token.NEQ {
+							ok, pred, why = true, true, "finder helper over injector.Args with predicate isContextType(elem.Type), compared with nil"
 						}
 					}
 				}
